@@ -114,6 +114,45 @@ def real_socket_round(chk, rng, nclients, rounds):
             t.start()
         for t in ths:
             t.join(20)
+    # one more round: a client that connects and sends NOTHING (it stalls before its first byte) next to ordinary clients — the others are
+    # served at once, and the silent one is dropped when the server's timeout (1 s) expires (seed C16-i peeked at the first byte in the accept loop)
+    silent = {}
+
+    def silent_client():
+        try:
+            s = socket.create_connection(('127.0.0.1', port), timeout=6)
+            t0 = time.time()
+            try:
+                b = s.recv(16)
+                silent['closed_after'] = time.time() - t0 if not b else None
+                silent['got'] = b
+            except socket.timeout:
+                silent['closed_after'] = None
+            s.close()
+        except Exception as e:  # noqa
+            silent['exc'] = type(e).__name__
+    st = threading.Thread(target=silent_client)
+    st.start()
+    time.sleep(0.3)
+    ths = []
+    for i in range(3):
+        kind, p = [x for x in ps if x[0].startswith('typed:ADT^A01')][0]
+        p = p.replace(b'|1|P|', ('|%d|P|' % (5000 + i)).encode())
+        t = threading.Thread(target=client, args=(n, kind, p, [], 'normal'))
+        ths.append(t)
+        n += 1
+    t_start = time.time()
+    for t in ths:
+        t.start()
+    for t in ths:
+        t.join(20)
+    served_in = time.time() - t_start
+    st.join(10)
+    chk.evals += 1
+    if served_in > 4.0 or silent.get('closed_after') is None or silent.get('closed_after', 99) > 4.0 or silent.get('got'):
+        chk.fail(None, {'clause': 'a client that stalls before its first byte does not hold up the others, and is dropped at the timeout',
+                        'others_served_in_s': round(served_in, 2), 'silent_client': {k: (v if not isinstance(v, bytes) else v.hex()) for k, v in silent.items()}},
+                 {'api': 'MLLPServer(timeout=1) on loopback: one silent connection + 3 ordinary clients'})
     srv.shutdown()
     srv.server_close()
     if handlers != before:
